@@ -35,7 +35,7 @@ RE_PUSH = re.compile(r"PUSH")
 RE_PUSH_LITERAL = re.compile(r"PUSH_LITERAL")
 RE_RANGE_OP = re.compile(r"\.\.")
 RE_RULE_DOC = re.compile(r"///")
-RE_TAG = re.compile(r"#[_a-zA-Z][_a-zA-Z0-9]*(?=\s*=)")
+RE_TAG = re.compile(r"#[_a-zA-Z][_a-zA-Z0-9]*")
 RE_WHITESPACE = re.compile(r"(?:[ \t\n]|\r\n)+")
 # character = ${ "'" ~ (escape | ANY) ~ "'" }. A lone backslash is never a
 # character: `\'` is an escape, so nothing is left to close the literal.
@@ -231,10 +231,14 @@ class Scanner:
 
     def accept_term(self) -> None:
         if value := self.scan(RE_TAG):
-            # Assumes RE_TAG is using a lookahead assertion for "=".
+            # node_tag = _{ tag_id ~ assignment_operator }: trivia, comments
+            # included, may separate the two.
             self.emit(TokenKind.TAG, value)
             self.skip_trivia()
-            self.emit(TokenKind.ASSIGN_OP, self.next())
+            if self.peek() == "=":
+                self.emit(TokenKind.ASSIGN_OP, self.next())
+            else:
+                self.error("expected the assignment operator")
             self.skip_trivia()
 
         # term = { node_tag? ~ prefix_operator* ~ node ~ postfix_operator* }
